@@ -239,6 +239,19 @@ def run_shard(spec, acc):
                 acc.count("string_key_messages")
             observe(decB, d, payload, nb, src=2, prio=1, tag=f"string-key {label} other decoder/source")
         acc.cover("definitions", d.id)
+        # keys that differ only in characters outside ASCII (and keys that differ only by such a character being there or
+        # not): different station ids, different hashes
+        crafted = ["東京", "大阪", "Køge-7", "Kge-7", "Kage-7", "äb", "öb", "b", "Ж1", "Я1", "1"]
+        real_rand_text = gen.rand_text
+        try:
+            for t_ in crafted:
+                gen.rand_text = lambda rng_, n_, unicode_=False, _t=t_: _t
+                for label, payload, nb, texts in variable_cases(dbx, d, rng, 6):
+                    if label in ("variable:2", "variable:3", "variable:4", "variable:5"):      # the modes that carry generated text
+                        if observe(decA, d, payload, nb, tag=f"string-key crafted {t_!r} {label}") is not None:
+                            acc.count("crafted_string_key_messages")
+        finally:
+            gen.rand_text = real_rand_text
     # second process, other hash seed
     if cross:
         env = dict(os.environ, PYTHONHASHSEED=str(rng.randrange(1, 4000000)), PYTHONDONTWRITEBYTECODE="1")
